@@ -122,7 +122,11 @@ def one_step(eng, p, who, d, tag, sym_counters=True):
     is_resp = (flags & 0x20) != 0
     role_ok = ((flags & 0x08) != 0) != me.is_initiator
     spi_ok = core.sym_or(exch == 34, core.sym_and(spi_i == my_spi_i, spi_r == my_spi_r))
-    addressed = core.sym_and(role_ok, spi_ok)
+    # IKE_SA_INIT is the one exchange that travels in the clear: a message carrying a (verified) Encrypted payload and that exchange type is not a
+    # valid message of any exchange - it is neither executed nor taken for a copy of the previous request
+    sk_first = (first == 46) if isinstance(first, int) else bool(first == 46)
+    valid_kind = core.sym_not(core.sym_and(sk_first, exch == 34))
+    addressed = core.sym_and(role_ok, spi_ok, valid_kind)
     in_req = core.sym_and(addressed, core.sym_not(is_resp), mid == peer0)
     in_res = core.sym_and(addressed, is_resp, mid == my0)
     replay = core.sym_and(addressed, core.sym_not(is_resp), mid == peer0 - 1)
